@@ -236,6 +236,11 @@ def run(cx):
     resend_ref_in_own_frame(cx, "C15.j")
     from props.shared import resend_refs_untouched
     resend_refs_untouched(cx, "C15.q")
+    from props.shared import acked_flag_writers
+    acked_flag_writers(cx, "C15.r")
+    # the nonce parity an acknowledgement must reproduce is the bit that went out on the wire
+    from bits import check_headers
+    check_headers(cx, "C15.s", "C15.t")
     group_width(cx, "C15.k")
     # a genuine acknowledgement of one frame must mark exactly the fragments that frame carried: the flag word/bit
     # written by acknowledge_fragment is the one fragment_acknowledged reads
